@@ -287,14 +287,30 @@ type Mail struct {
 type Mailer struct {
 	mu    sync.Mutex
 	Box   []Mail
+	Lost  []Mail // handed to the mailer, delivery failed (injected)
 	store *Store
 	Then  []authboss.Mailer // further mailers every message is handed to (errors ignored)
 }
 
 func (m *Mailer) Send(ctx context.Context, e authboss.Email) error {
+	ml := parseMail(e)
 	if err := m.store.Backend(ctx, "SendMail", strings.Join(e.To, ",")); err != nil {
+		// not delivered; what the library handed over is kept so that the scanner (C17) knows the secret
+		m.mu.Lock()
+		m.Lost = append(m.Lost, ml)
+		m.mu.Unlock()
 		return err
 	}
+	m.mu.Lock()
+	m.Box = append(m.Box, ml)
+	m.mu.Unlock()
+	for _, t := range m.Then {
+		_ = t.Send(ctx, e)
+	}
+	return nil
+}
+
+func parseMail(e authboss.Email) Mail {
 	body := e.TextBody + "\n" + e.HTMLBody
 	ml := Mail{To: append([]string(nil), e.To...), Kind: "unknown", Body: body}
 	// the JSON mail renderer emits {"url":"..."} / {"recover_url":"..."}
@@ -319,13 +335,7 @@ func (m *Mailer) Send(ctx context.Context, e authboss.Email) error {
 			}
 		}
 	}
-	m.mu.Lock()
-	m.Box = append(m.Box, ml)
-	m.mu.Unlock()
-	for _, t := range m.Then {
-		_ = t.Send(ctx, e)
-	}
-	return nil
+	return ml
 }
 
 // TakeFor removes and returns the captured mails addressed to `to`.
@@ -816,6 +826,7 @@ type Resp struct {
 	Probe     *ProbeResult           `json:"probe,omitempty"`
 	Writes    []WriteRec             `json:"writes"`
 	Mails     []Mail                 `json:"mails"`
+	LostMails []Mail                 `json:"lostMails,omitempty"`
 	SMSs      []SMS                  `json:"sms"`
 	Log       string                 `json:"-"`
 	Calls     []Call                 `json:"calls,omitempty"`
@@ -950,6 +961,9 @@ func (in *Instance) Do(rq Req) (resp Resp) {
 	in.probeMu.Unlock()
 	resp.Writes = append(in.Sess.takeWrites(), in.Cook.takeWrites()...)
 	resp.Mails = in.Mail.take()
+	in.Mail.mu.Lock()
+	resp.LostMails, in.Mail.Lost = in.Mail.Lost, nil
+	in.Mail.mu.Unlock()
 	resp.SMSs = in.SMSOut.take()
 	resp.Log = in.Log.take()
 	return
